@@ -378,5 +378,34 @@ def r01_9(ctx):
     return r
 
 
+FWD = S + "handle_forward_tsn::{closure#0}"
+
+
+def r01_10(ctx):
+    """a FORWARD-TSN moves the receive point without delivering anything. Chunks already buffered beyond the new
+    point may now be next in order; the peer has seen them gap-acked and will never send them again, and the
+    only other drain runs when new DATA arrives. So the handler itself must drain: after the receive point moves,
+    every path to the return tries `received_queue.remove(&receive_point + 1 ..)`."""
+    r = RuleResult("R01.10", "K4", "FORWARD-TSN drains the reorder buffer after moving the receive point")
+    b = ctx.body(FWD)
+    r.scope.append(FWD)
+    stores = [x[0] for x in core.atomic_sites(b, "cumulative_tsn_ack", "store")]
+    r.need("receive point stores in handle_forward_tsn", len(stores), 1)
+    drains = []
+    for bi, t, p in b.calls():
+        if p and p.endswith("BTreeMap::<K, V, A>::remove") and t["a"] and mir.has_field(b.term_operand(t["a"][0]), "received_queue"):
+            k = b.term_operand(t["a"][1])
+            if mir.has(k, lambda x: x[0] == "call" and x[1].endswith("wrapping_add") and mir.has(x, lambda y: core.is_atomic_load(y, "cumulative_tsn_ack"))):
+                drains.append(bi)
+    first = min(stores)
+    if drains and core.always_followed_by(b, first, drains):
+        r.ok({"store": b.where(first), "then": "received_queue.remove(&cumulative_tsn_ack + 1 ..) on every path"})
+    else:
+        r.violate(FWD, "no-drain", b.where(first),
+                  "after FORWARD-TSN moves the receive point the reorder buffer is not drained: a buffered chunk that became "
+                  "in-order stays parked until unrelated DATA arrives (the peer will not resend it)")
+    return r
+
+
 def run(ctx):
-    return [r01_1(ctx), r01_2(ctx), r01_3(ctx), r01_4(ctx), r01_5(ctx), r01_6(ctx), r01_7(ctx), r01_8(ctx), r01_9(ctx)]
+    return [r01_1(ctx), r01_2(ctx), r01_3(ctx), r01_4(ctx), r01_5(ctx), r01_6(ctx), r01_7(ctx), r01_8(ctx), r01_9(ctx), r01_10(ctx)]
